@@ -6,7 +6,8 @@ from harness import sig_common as sc
 def run(ck):
     sc.run_property(ck, sc.oracle_C11)
     ck.run_fixed({"class_change_keeps_the_channel_and_class_level_use_is_refused": "C11:identity",
-                  "one_stream_over_equal_owners": "C11:shared-channel"})
+                  "one_stream_over_equal_owners": "C11:shared-channel",
+                  "overriding_signal_has_its_own_event_class": "C11:typecheck"})
 
 
 def replay(ck, obj):
